@@ -174,7 +174,7 @@ fn bar_op(rng: &mut Rng, b: u64, w: usize, special: bool, fl: Flavor) -> Op {
             2 => Op::new("set_position").n(b).n(rng.below(120)),
             3 => Op::new("set_message").n(b).n(0).s(gen_tabbed(rng, "m")),
             4 => Op::new("set_prefix").n(b).n(0).s(gen_tabbed(rng, "p")),
-            5 => Op::new("set_style").n(b).n(0).s(gen_template(rng, &format!("S{b}"), true)).s(if rng.chance(1, 2) { gen_tabbed(rng, "o") } else { String::new() }),
+            5 => Op::new("set_style").n(b).n(rng.below(2)).s(gen_template(rng, &format!("S{b}"), true)).s(if rng.chance(1, 2) { gen_tabbed(rng, "o") } else { String::new() }),
             6 => Op::new("set_length").n(b).n(rng.below(200)),
             7 => Op::new("println").n(b).n(0).s("L"),
             8 => Op::new("suspend").n(b).n(0).s("U"),
@@ -190,7 +190,7 @@ fn bar_op(rng: &mut Rng, b: u64, w: usize, special: bool, fl: Flavor) -> Op {
         2 => Op::new("set_position").n(b).n(rng.below(120)),
         3 => Op::new("set_message").n(b).n(0).s(gen_text(rng, w, "m", 3, special)),
         4 => Op::new("set_prefix").n(b).n(0).s(gen_text(rng, w, "p", 2, special)),
-        5 => Op::new("set_style").n(b).n(0).s(gen_template(rng, &format!("S{b}"), false)).s(""),
+        5 => Op::new("set_style").n(b).n(rng.below(2)).s(gen_template(rng, &format!("S{b}"), false)).s(""),
         6 => Op::new("set_length").n(b).n(rng.below(200)),
         7 => Op::new("println").n(b).n(0).s(gen_text(rng, w, "L", 3, special)),
         8 => Op::new("suspend").n(b).n(0).s(gen_text(rng, w, "U", 2, false)),
@@ -290,9 +290,19 @@ impl Check for TermCheck {
             nbars = 1;
         }
         let burst = matches!(fl, Flavor::C03 | Flavor::C04) && rng.chance(1, 2);
-        for _ in 0..n {
+        // exhaust the refresh limiter early (its burst allowance is 20 frames): the interesting
+        // histories are the ones in which ordinary draws are skipped afterwards
+        let burn_at = if hz > 0 && rng.chance(1, 2) { Some(rng.below(n.min(6))) } else { None };
+        let mut quiet_until = 0;
+        for step in 0..n {
+            if burn_at == Some(step) && nbars > 0 {
+                ops.push(Op::new("burn").n(rng.below(nbars as u64)).n(rng.range(20, 45)));
+                // stay in the exhausted state for a while: no clock gaps
+                quiet_until = step + rng.range(4, 14);
+            }
             // clock gap
-            if !burst && rng.chance(1, 3) {
+            if step < quiet_until {
+            } else if !burst && rng.chance(1, 3) {
                 ops.push(Op::new("advance").n(gen_gap(rng, hz)));
             } else if burst && rng.chance(1, 10) {
                 ops.push(Op::new("advance").n(gen_gap(rng, hz)));
